@@ -41,7 +41,7 @@ def reader_cases(wd, seed, per_cat):
     """C10 streams (binary and text) for catalogues 2..5 of MC_SymCtx."""
     rnd = random.Random(seed * 7919 + 18)
     hists = []
-    for cat in (2, 3, 4, 5):
+    for cat in (2, 3, 4, 5, 6):
         for _ in range(per_cat):
             n = rnd.randint(2, 6)
             hists.append(dict(cat=cat, h=[rnd.choice([rnd.randint(2, c10.NTABLES - 4), rnd.randint(c10.NTABLES + 1, c10.NITEMS), rnd.randint(c10.NTABLES - 3, c10.NITEMS)]) for _ in range(n)]))
